@@ -1,9 +1,13 @@
 PROP = {
-    'id': 'C05',
-    'functions': [
-        'saml2_tophat.response:for_me',
-        'saml2_tophat.response:AuthnResponse.condition_ok',
-        'saml2_tophat.response:AuthnResponse._bearer_confirmed',
-    ],
-    'level': 'proof',
+ "functions": [
+  "saml2_tophat.response:for_me",
+  "saml2_tophat.response:AuthnResponse.condition_ok",
+  "saml2_tophat.response:AuthnResponse._bearer_confirmed",
+  "saml2_tophat.response:StatusResponse._validate_destination",
+  "saml2_tophat.response:StatusResponse._verify",
+  "saml2_tophat.response:AuthnResponse.check_subject_confirmation_in_response_to",
+  "saml2_tophat.response:AuthnResponse.loads"
+ ],
+ "level": "proof",
+ "id": "C05"
 }
